@@ -75,6 +75,34 @@ Theorem C01b_budget_backoff_no_close :
 Proof. exact budget_attempt_fails_no_close. Qed.
 Print Assumptions C01b_budget_backoff_no_close.
 
+(* sent_unamb from its parts, with that syntactic budget condition *)
+Theorem C01b_sent_unamb_intro :
+  forall (F : Type) (fread : str -> option F) (fzero : F) (in01 : F -> bool) (E : efmt)
+         (unamb : sterm -> str -> bool) (s : snarsese),
+    total_ok E = true -> state_facts_ok = true -> budget_requires_close = true -> task_budget_brackets_1 E <> [] ->
+    unamb (sn_term s) (tail0 E s) = true ->
+    starts (space_parse E) (from_term E s) = false ->
+    (sn_budget s <> None \/ starts (task_budget_brackets_0 E) (from_term E s) = false \/
+     no_occ (task_budget_brackets_1 E) (drop (length (task_budget_brackets_0 E)) (from_term E s)) = true) ->
+    match sn_stamp s with
+    | Some (_, x) => nonempty (sentence_stamp_brackets_0 E) || Nat.eqb (ss_sp0 x) 0 = true
+    | None => True
+    end ->
+    sent_unamb F fread fzero in01 E unamb s = true.
+Proof. exact sent_unamb_intro. Qed.
+Print Assumptions C01b_sent_unamb_intro.
+
+(* the term-level hypothesis, written with the cursor invariant wf of Proofs/EnumTotalP.v *)
+Theorem C01b_TermParses_interface :
+  forall (F : Type) (is_alnum : N -> bool) (E : efmt) (unamb : sterm -> str -> bool),
+    TermParses F is_alnum E unamb <->
+    (forall (t : sterm) (v : term) (k : str) (L : nat) (st : pstate F) (fuel : nat),
+       odesugar t = Some v -> unamb t k = true ->
+       wf F L st -> s_rest st = render E t ++ k -> (sdepth t < fuel)%nat ->
+       p_term F is_alnum E fuel st = POk v (step F (length (render E t)) st)).
+Proof. exact TermParses_wf. Qed.
+Print Assumptions C01b_TermParses_interface.
+
 (* known class K2: the Han word 预算 means a term, is rejected by sent_unamb, and does not parse *)
 Theorem C01b_han_K2 :
   forall (F : Type) (fread : str -> option F) (fzero : F) (in01 : F -> bool) (is_alnum : N -> bool),
